@@ -1,6 +1,7 @@
 """C08 — aggregates are the rule function over exactly the values of their interval."""
 import itertools
 import os
+import re
 
 from vlib import gen
 
@@ -183,7 +184,17 @@ def run_config(cfg, res):
       del generated[:]
 
     for ev in evs:
-      if ev[0] == 'arrive':
+      if ev[0] == 'reload':
+        # the rules file is edited while series are buffered (RuleManager's LoopingCall picks the change up): whatever was
+        # emitted up to here was computed under the old rules; what is buffered may be dropped or kept, but from now on
+        # every series is aggregated with the new rule's method over intervals aligned to the new rule's frequency
+        rules = load_rules(ev[1])
+        check_emissions()
+        for rec in sh.values():
+          rec['dropped_ok'] = True
+          rec['since'] = []
+        res.count('rule_reloads_mid_stream')
+      elif ev[0] == 'arrive':
         _, name, off, value = ev
         ts = int(now()) + off
         if isinstance(off, float):
@@ -200,6 +211,8 @@ def run_config(cfg, res):
           freq = rule['frequency']
           interval = ts - (ts % freq)
           rec = sh.setdefault((agg, interval), dict(all=[], since=[], last_emit=None, dropped_ok=False, freq=freq, method=rule['method']))
+          if rec['method'] != rule['method'] or rec['freq'] != freq:      # the rule changed under this series
+            rec['method'], rec['freq'] = rule['method'], freq
           rec['all'].append(value)
           rec['since'].append(value)
           ever.setdefault(agg, set()).add(interval)
@@ -326,6 +339,20 @@ def run_config(cfg, res):
         evs.append(('arrive', nm, off, r.randrange(-4000, 4000) * 0.25))
       else:
         evs.append(('adv', r.choice([1, 5, 7, 10, 10, 30, 60, 61, 200])))
+    if r.random() < 0.4:
+      # edit the rules file in the middle of the stream: same outputs and patterns, other methods and / or frequencies
+      def edited(t):
+        lines = []
+        for ln in t.splitlines():
+          m_ = re.match(r'^(\S+) \((\d+)\) = (\S+) (.*)$', ln)
+          if m_ and r.random() < 0.7:
+            freq_ = int(m_.group(2)) if r.random() < 0.5 else r.choice([10, 60])
+            meth_ = r.choice(aggrules.METHODS) if r.random() < 0.8 else m_.group(3)
+            ln = '%s (%d) = %s %s' % (m_.group(1), freq_, meth_, m_.group(4))
+          lines.append(ln)
+        return '\n'.join(lines) + '\n'
+      for _ in range(r.randint(1, 2)):
+        evs.insert(r.randrange(len(evs) // 3, len(evs)), ('reload', edited(text)))
     viol, nemit, late = run_sequence(rules, evs, 'rand')
     res.count('sequences_executed')
     res.case(repr((text, evs)), nontrivial=(nemit >= 1 and late >= 1))
